@@ -210,6 +210,52 @@ pub fn run_c05(ctx: &Ctx) -> Result<()> {
 }
 
 // ------------------------------------------------------------------------------------------
+/// C06: "a server started with the same transform flags exposes the same coordinate mapping as a conversion with them" -
+/// the real binary with --flip-y / --swap-xy and several sources (two versatiles files with different, asymmetric
+/// coverage and a PMTiles file); every coordinate of levels 0..3 of every source is requested and must carry the
+/// payload of the source tile at its pre-image (swap undone first, then flip), 404 where the source has none there
+pub fn run_c06_server(ctx: &Ctx, col: &mut Collector) -> Result<()> {
+	let rt = tokio::runtime::Builder::new_multi_thread().worker_threads(2).enable_all().build()?;
+	let dir = std::fs::canonicalize(&ctx.out)?.join("srv06"); std::fs::create_dir_all(&dir)?;
+	let mut rng = Rng::new(ctx.seed ^ 0x06);
+	let mut sets: Vec<(String, HashMap<(u8, u32, u32), Vec<u8>>, String)> = Vec::new();
+	for (i, ext) in ["versatiles", "versatiles", "pmtiles"].iter().enumerate() {
+		let mut tiles = HashMap::new();
+		for z in 0..=3u8 { let m = (1u32 << z) - 1; for x in 0..=m { for y in 0..=m {
+			// asymmetric coverage, different per source
+			let keep = match i { 0 => x <= y + 1 && (x + y) % 4 != 3, 1 => y <= 2 * x && x % 3 != 2, _ => rng.chance(2, 3) };
+			if keep { tiles.insert((z, x, y), format!("{{\"src\":{i},\"z\":{z},\"x\":{x},\"y\":{y}}}").into_bytes()); } } } }
+		let id = format!("t{i}");
+		let path = dir.join(format!("{id}.{ext}"));
+		let mut src = MemSource::new(&id, tiles.iter().map(|(k, v)| (*k, v.clone())).collect(), TileFormat::PBF, TileCompression::Uncompressed);
+		rt.block_on(write_to_filename(&mut src, path.to_str().unwrap()))?;
+		sets.push((id, tiles, path.to_str().unwrap().to_string()));
+	}
+	for (flip, swap) in [(true, false), (false, true), (true, true), (false, false)] {
+		let mut args: Vec<String> = sets.iter().map(|(id, _, p)| format!("[{id}]{p}")).collect();
+		if flip { args.push("--flip-y".into()); } if swap { args.push("--swap-xy".into()); }
+		let srv = start_server(&args)?;
+		for (id, tiles, _) in &sets { for z in 0..=3u8 { let m = (1u32 << z) - 1; for x in 0..=m { for y in 0..=m {
+			col.spec_cases += 1;
+			let (mut sx, mut sy) = (x, y);
+			if swap { std::mem::swap(&mut sx, &mut sy); } if flip { sy = m - sy; }
+			let expect = tiles.get(&(z, sx, sy));
+			let desc = format!("serve{}{} with sources t0 t1 t2: GET /tiles/{id}/{z}/{x}/{y}", if flip { " --flip-y" } else { "" }, if swap { " --swap-xy" } else { "" });
+			match raw_get(srv.port, &format!("/tiles/{id}/{z}/{x}/{y}"), &[("accept-encoding", "identity")]) {
+				None => col.violation("server-transform", &desc, &desc, "no complete HTTP response"),
+				Some(r) => match (r.status, expect) {
+					(200, Some(p)) if &r.body == p => {}
+					(404, None) => {}
+					(st, _) => col.violation("server-transform", &desc, &desc, &format!("status {st}, body {:?}; a conversion with the same flags has {} at this coordinate (source tile {z}/{sx}/{sy})", String::from_utf8_lossy(&r.body[..r.body.len().min(60)]), expect.map_or("no tile".to_string(), |p| String::from_utf8_lossy(p).to_string()))),
+				},
+			}
+		} } } }
+		drop(srv);
+	}
+	let _ = std::fs::remove_dir_all(&dir);
+	Ok(())
+}
+
 pub fn run_c07(ctx: &Ctx) -> Result<()> {
 	let mut col = Collector::new(&ctx.out)?;
 	let base = std::fs::canonicalize(&ctx.out)?.join("c07"); let _ = std::fs::remove_dir_all(&base);
